@@ -283,8 +283,8 @@ func stripObs(l string) string {
 
 // execCase runs the op lines of one case and returns them followed by the observation lines.
 func (r *runner) execCase(ops []string) (out []string, err error) {
-	var c, cb cfg
-	cb = cfg{form: "s", lv: "111", rs: "000", hist: -1, win: 2}
+	c := cfg{form: "s", lv: "111", rs: "000", hist: -1, win: 2}
+	cb := c
 	extra := map[string]string{}
 	var body [][]string
 	for _, raw := range ops {
